@@ -51,10 +51,10 @@ def areaCell (g : Grid) (x y : Rat) : Option (Nat × Nat) :=
   let p := areaIdx g x y
   if p.1.1 || p.2.1 then none else some (p.1.2.toNat, p.2.2.toNat)
 
-/-- `ewa.ll2cr`: `cw = pixel_size_x`, `ch = -|pixel_size_y|`, origin at the upper-left pixel centre -/
+/-- `ewa.ll2cr`: `cw = pixel_size_x`, `ch = -pixel_size_y` (signed, since the repair of finding F8), origin at the upper-left pixel centre -/
 def ll2crCol (g : Grid) (x : Rat) : Rat := (x - (g.x0 + g.dx / 2)) / g.dx
 def ll2crRow (g : Grid) (y : Rat) : Rat :=
-  let ch : Rat := -(if 0 ≤ g.dy then g.dy else -g.dy)
+  let ch : Rat := -g.dy
   (y - (g.y1 + ch / 2)) / ch
 
 /-- the count predicate of `ll2cr_static` -/
